@@ -89,13 +89,37 @@ impl<M: AlignMarker> Drop for Node<M> {
         let wcell = circ::verif::atomic_weak_addr(&self.wlink);
         crate::shadow::hook_drop(self.id, wcell);
         self.canary.store(CANARY_DEAD, Relaxed);
-        if DTOR_API.load(Relaxed) != 0 {
+        let api = DTOR_API.load(Relaxed);
+        if api != 0 && crate::shadow::installed() && crate::sched::my_tid() != crate::sched::NONE {
             // legal re-entry from a destructor that runs inside collection
             let g = circ::cs();
-            if DTOR_API.load(Relaxed) >= 2 {
+            if api == 2 {
                 let g2 = circ::cs();
                 g2.flush();
                 drop(g2);
+            }
+            if api >= 3 {
+                // C16 from within a destructor: further guards created (and dropped) while `g` is
+                // live must not move the announced epoch, whatever other threads do meanwhile
+                let l1 = circ::verif::local_of(&g);
+                let e1 = l1.epoch_word;
+                for round in 0..2 {
+                    crate::sched::inner_yield();
+                    let g2 = circ::cs();
+                    let l2 = circ::verif::local_of(&g2);
+                    let e2 = l2.epoch_word;
+                    // (during thread-local destruction every cs() registers a participant of its
+                    // own; only guards of the same participant are nested)
+                    if l2.local == l1.local && e2 != e1 {
+                        crate::shadow::shadow().soft(
+                            "C16",
+                            "nested-pin-in-destructor-changed-epoch",
+                            format!("destructor of #{} (running inside collection) holds a guard announced at epoch word {:#x}; creating nested guard {} changed it to {:#x}", self.id, e1, round, e2),
+                        );
+                    }
+                    crate::sched::sim().probe("nested_pin_in_destructor");
+                    drop(g2);
+                }
             }
             drop(g);
         }
